@@ -82,7 +82,17 @@ type flushState struct {
 	// callback's side effects to have actually happened (not just the store
 	// write) — e.g. connector.Source's deferred plugin-ack under Approach A,
 	// see source.go's Ack — needs this one. This is what callbackWg tracked.
+	//
+	// It also covers the callbacks of every EARLIER flush: a waiter only ever
+	// observes the most recent generation, and a newer flush can be triggered
+	// (by any other connector) while the callbacks of the previous one are
+	// still running, so a generation does not report its callbacks done before
+	// the previous generation did (see prevCallbacksDone).
 	callbacksDone chan struct{}
+	// prevCallbacksDone is the callbacksDone channel of the flush generation
+	// this one superseded, nil for the first one. Only the channel is kept, not
+	// the previous flushState, so generations do not form an ever-growing chain.
+	prevCallbacksDone chan struct{}
 }
 
 // clock abstracts the two time operations the persister needs in order to
@@ -360,6 +370,9 @@ func (p *Persister) triggerFlush(ctx context.Context) {
 		writeDone:     make(chan struct{}),
 		callbacksDone: make(chan struct{}),
 	}
+	if p.flush != nil {
+		st.prevCallbacksDone = p.flush.callbacksDone
+	}
 	p.flush = st
 	go p.flushNow(ctx, batch, st)
 }
@@ -412,6 +425,11 @@ func (p *Persister) flushNow(ctx context.Context, batch map[string]persistData, 
 	}
 	go func() {
 		cbWg.Wait()
+		if st.prevCallbacksDone != nil {
+			// the callbacks of an earlier flush may still be running, whoever
+			// waits on this generation waits for "every flush already triggered"
+			<-st.prevCallbacksDone
+		}
 		close(st.callbacksDone)
 	}()
 
